@@ -15,6 +15,7 @@ mod d_embed;
 mod d_entry;
 mod d_fixb;
 mod d_fixsmall;
+mod d_imp;
 mod d_limits;
 mod d_pipe;
 mod d_rx;
@@ -141,6 +142,7 @@ fn main() {
     "vms" => d_vms::run(&args),
     "ws" => d_ws::run(&args),
     "fixsmall" => d_fixsmall::run(&args),
+    "imp" => d_imp::run(&args),
     "txt" => d_txt::run(&args),
     "dlint" => d_dlint::run_all(&args),
     x => {
